@@ -195,14 +195,17 @@ def dense_deal(rng, nboard=5, sizes=(4, 2)):
 
 class C06(Prop):
     pid = "C06"
-    force_level = "other"   # the optimised-evaluator half (fast = brute force) is not proved yet: see DESIGN.md
     title = "Omaha (fast and brute force) and Hold'em strength = best legal five-card hand (2+3 / any 5 of 7)"
     rule = ("structured deals from dense sub-decks (paired/tripled boards, flush boards, straight windows across the ace, "
             "quads), board 5 + Omaha hand 4 + Hold'em hand 2 pairwise disjoint; thorough: 16 shards x 4 min of the same plus "
             "uniform deals; non-trivial = best Omaha hand is at least a pair; distinct by sorted (board, hand)")
     batch = 800
     quick_seconds = 25
-    trusted_base = ["Python tuple comparison = lexicographic comparison of key lists"]
+    trusted_base = ["Python tuple comparison = lexicographic comparison of key lists",
+                    "omaha_fast_eq_spec / omaha_fast_eq_brute / omaha_fast_sym additionally trust the Lean compiler and the native code of "
+                    "the CardModel library: the two finite tables (10,995,985 suit-free rank patterns, 503,217 flush patterns) are closed by "
+                    "`native_decide` in 70 chunks (axioms CardVerif.OmahaD.tabR_*/tabF_*._native.native_decide.ax_1_1, listed per theorem "
+                    "below); the decomposition, order-independence, covering and assembly lemmas are kernel-checked"]
     assumptions = ["board and hands are distinct standard cards, pairwise disjoint"]
 
     def setup(self):
